@@ -906,6 +906,20 @@ func checkNamesDupKind(w *World, c *Check, t *tables) {
 						}
 					}
 				}
+				// a wrapper that hands its instant on to another prop writer taking an instant is judged there
+				delegates := false
+				for _, call := range callsIn(f) {
+					if cal := call.Common().StaticCallee(); cal != nil && cal != f && t.pw[cal] != nil {
+						for j := 0; j < cal.Signature.Params().Len(); j++ {
+							if isTimeTime(cal.Signature.Params().At(j).Type()) && j < len(call.Common().Args) && unwrap(call.Common().Args[j]) == ssa.Value(f.Params[i]) {
+								delegates = true
+							}
+						}
+					}
+				}
+				if delegates && !okLayout {
+					continue
+				}
 				if okLayout {
 					c.ok("C02.kind", "layout:"+funcName(f), w.FuncPos(f), "instants are written in RFC 3339")
 				} else {
